@@ -504,6 +504,11 @@ pub fn flat_files(e: &Entry, prefix: &str, acc: &mut Vec<(String, Vec<u8>)>) {
     }
 }
 
+/// C11 at the front ends: non-empty, ends with a line feed, no line ends with a blank character.
+fn hygienic(t: &str) -> bool {
+    !t.is_empty() && t.ends_with('\n') && t.split('\n').all(|l| !l.ends_with(|c: char| c.is_whitespace()))
+}
+
 /// Returns failures as (property, kind, message).
 pub fn oracles(sc: &Scenario, o: &Observed) -> Vec<(&'static str, &'static str, String)> {
     let a = &sc.args;
@@ -551,6 +556,20 @@ pub fn oracles(sc: &Scenario, o: &Observed) -> Vec<(&'static str, &'static str, 
     }
     if let Cmd::Stdin(s) = &a.cmd {
         inputs.push(Some(s.clone()));
+    }
+    // C11: what a front end prints or leaves in a file for a well-formed input is hygienic text
+    let mut all_wellformed = true;
+    let mut wellformed_targets: Vec<String> = vec![];
+    for (i, inp) in inputs.iter().enumerate() {
+        if let Some(x) = inp {
+            if lib(a, x).is_some() {
+                if let Some(t) = targets.get(i) {
+                    wellformed_targets.push(t.trim_start_matches("./").to_string());
+                }
+            } else {
+                all_wellformed = false;
+            }
+        }
     }
     for (i, inp) in inputs.iter().enumerate() {
         if let Some(x) = inp {
@@ -620,12 +639,28 @@ pub fn oracles(sc: &Scenario, o: &Observed) -> Vec<(&'static str, &'static str, 
                 }
             }
         }
+        if writes && o.exit == 0 {
+            // C11: after a successful in-place run every well-formed input file holds hygienic text
+            for p in &wellformed_targets {
+                if let Some(bytes) = after.get(p) {
+                    if let Ok(t) = std::str::from_utf8(bytes) {
+                        if !hygienic(t) {
+                            f.push(("C11", "cli-file", format!("{} is well-formed but does not hold hygienic text after the in-place run: {:?}", p, t.chars().take(80).collect::<String>())));
+                        }
+                    }
+                }
+            }
+        }
         if writes {
             let want_fail = io_error;
             if (o.exit != 0) != want_fail {
                 f.push(("C15", "exit", format!("exit status {} but io_error={}", o.exit, io_error)));
             }
         } else {
+            // C11: the concatenation of results for well-formed inputs is hygienic
+            if all_wellformed && !inputs.is_empty() && inputs.iter().all(|x| x.is_some()) && !hygienic(&o.stdout) {
+                f.push(("C11", "cli-stdout", format!("the text printed for well-formed input is not hygienic: {:?}", o.stdout.chars().take(120).collect::<String>())));
+            }
             // C16: plain mode prints exactly the library results, in order
             if o.stdout != expect_stdout {
                 f.push(("C16", "stdout", format!("stdout differs from the library results: {:?} vs {:?}", o.stdout.chars().take(120).collect::<String>(), expect_stdout.chars().take(120).collect::<String>())));
